@@ -296,6 +296,7 @@ static void sc_read(char **av, int ac)
 	name_ctx_locks(ctx);
 	win_open();
 	st = CALL("kdump_read", kdump_read(ctx, as, addr, buf, &l));
+	if (st != KDUMP_OK && getenv("OOM_VERBOSE")) fprintf(stderr, "kdump_read: %s\n", kdump_get_err(ctx));
 	note_held();
 	win_close();
 	if (!held_at_return) {
@@ -316,6 +317,8 @@ static void sc_readstr(char **av, int ac)
 	kdump_ctx_t *ctx = open_ctx(path, &fd);
 	kdump_status st;
 	char *s = NULL;
+	unsigned long long rootpgt = ac > 3 ? argull(av, 3) : 0;
+	if (as == KDUMP_KVADDR) set_xlat(ctx, rootpgt);
 	name_ctx_locks(ctx);
 	win_open();
 	st = CALL("kdump_read_string", kdump_read_string(ctx, as, addr, &s));
@@ -323,7 +326,7 @@ static void sc_readstr(char **av, int ac)
 	win_close();
 	if (st == KDUMP_OK) LIB(free(s));
 	if (!held_at_return) {
-		compare_read(ctx, path, as, addr, 16, 0, "read after read_string");
+		compare_read(ctx, path, as, addr, 16, rootpgt, "read after read_string");
 		LIB(kdump_free(ctx));
 	}
 	close(fd);
@@ -788,6 +791,7 @@ int main(int argc, char **argv)
 			if (r) {
 				char *nl = strchr(r, '\n'); if (nl) *nl = 0;
 				printf("%s rc=%s %s san=%s\n", head, rc, r + 2, san);
+				if (getenv("OOM_VERBOSE") && el) fprintf(stderr, "---- %s\n%s\n", head, err);
 			} else {
 				unsigned long a = 0, b = 0;
 				if (fl) sscanf(fl, "F %lx %lx", &a, &b);
